@@ -36,6 +36,9 @@ pub enum Site {
     /// A point in the middle of a critical section (the thread holds the global lock). Payload: which one.
     /// A harness may pause here to let other threads do what they can do without the global lock.
     InCs(u32),
+    /// A point between two statements outside any critical section (the thread does not hold the global lock)
+    /// that is not otherwise reported. Payload: which one. A harness may pause here.
+    Between(u32),
 }
 
 /// What the harness has to implement.
@@ -104,6 +107,15 @@ pub fn before_key_wait<T>(mutex: &T) {
 pub fn in_cs(id: u32) {
     if glock_depth() != 0 {
         at(Site::InCs(id));
+    }
+}
+
+/// Optional scheduling point between two statements outside any critical section (only reported while the
+/// global lock is not held).
+#[inline]
+pub fn between(id: u32) {
+    if glock_depth() == 0 {
+        at(Site::Between(id));
     }
 }
 
